@@ -83,31 +83,42 @@ func CollectCommodities(journal *ast.Journal) []string {
 	seen := make(map[string]bool)
 	var commodities []string
 
+	add := func(symbol string) {
+		if symbol != "" && !seen[symbol] {
+			seen[symbol] = true
+			commodities = append(commodities, symbol)
+		}
+	}
+
 	for _, dir := range journal.Directives {
 		if cd, ok := dir.(ast.CommodityDirective); ok {
-			if cd.Commodity.Symbol != "" && !seen[cd.Commodity.Symbol] {
-				seen[cd.Commodity.Symbol] = true
-				commodities = append(commodities, cd.Commodity.Symbol)
-			}
+			add(cd.Commodity.Symbol)
 		}
 	}
 
 	for _, tx := range journal.Transactions {
 		for _, posting := range tx.Postings {
 			if posting.Amount != nil {
-				symbol := posting.Amount.Commodity.Symbol
-				if symbol != "" && !seen[symbol] {
-					seen[symbol] = true
-					commodities = append(commodities, symbol)
-				}
+				add(posting.Amount.Commodity.Symbol)
 			}
 			if posting.Cost != nil {
-				symbol := posting.Cost.Amount.Commodity.Symbol
-				if symbol != "" && !seen[symbol] {
-					seen[symbol] = true
-					commodities = append(commodities, symbol)
-				}
+				add(posting.Cost.Amount.Commodity.Symbol)
 			}
+			// a commodity may be written in a balance assertion only
+			if posting.BalanceAssertion != nil {
+				add(posting.BalanceAssertion.Amount.Commodity.Symbol)
+			}
+		}
+	}
+
+	// ... or in a market price or as the default commodity only
+	for _, dir := range journal.Directives {
+		switch d := dir.(type) {
+		case ast.PriceDirective:
+			add(d.Commodity.Symbol)
+			add(d.Price.Commodity.Symbol)
+		case ast.DefaultCommodityDirective:
+			add(d.Symbol)
 		}
 	}
 
@@ -134,6 +145,13 @@ func CollectTags(journal *ast.Journal) []string {
 		}
 		for _, posting := range tx.Postings {
 			collectTagsFrom(posting.Tags)
+		}
+	}
+
+	// tags written on account directives
+	for _, dir := range journal.Directives {
+		if ad, ok := dir.(ast.AccountDirective); ok {
+			collectTagsFrom(ad.Tags)
 		}
 	}
 
@@ -297,6 +315,11 @@ func CollectTagValues(journal *ast.Journal) map[string][]string {
 			addTagValue(posting.Tags)
 		}
 	}
+	for _, dir := range journal.Directives {
+		if ad, ok := dir.(ast.AccountDirective); ok {
+			addTagValue(ad.Tags)
+		}
+	}
 
 	return result
 }
@@ -362,6 +385,11 @@ func CollectTagCounts(journal *ast.Journal) map[string]int {
 			countTags(posting.Tags)
 		}
 	}
+	for _, dir := range journal.Directives {
+		if ad, ok := dir.(ast.AccountDirective); ok {
+			countTags(ad.Tags)
+		}
+	}
 	return counts
 }
 
@@ -387,6 +415,11 @@ func CollectTagValueCounts(journal *ast.Journal) map[string]map[string]int {
 		}
 		for _, posting := range tx.Postings {
 			countTagValues(posting.Tags)
+		}
+	}
+	for _, dir := range journal.Directives {
+		if ad, ok := dir.(ast.AccountDirective); ok {
+			countTagValues(ad.Tags)
 		}
 	}
 	return counts
